@@ -192,6 +192,8 @@ def run(ctx):
     ctx.rule("R05.i", "in every @contextmanager, each write to object state (attribute/subscript store) made after the yield on the normal way out is also made on the way out of a failing body", floor=5)
     ctx.rule("R05.g", "a self-resetting Event is reset even when a watcher raises during the assignment: in Event.__set__ the reset is passed on the exceptional exit of super().__set__", floor=1)
     ctx.rule("R05.h", "a failing flush leaves no events behind: every exceptional exit of the flush passes a reset of both queues", floor=1)
+    ctx.rule("R05.k", "constructor model: Parameters._setup_params interpreted abstractly (keywords x reference modes): no link is installed (no watcher put on a source object) while keywords "
+                      "are still being applied -- references are only collected, and linked after every keyword has been accepted -- so a rejected keyword leaves nothing behind on other objects", floor=1)
     ctx.rule("R05.s", "setter model: Parameter.__set__ interpreted abstractly on every combination (576) of route x constant/readonly x validation outcome x identity x reference mode x watchers x "
                       "batching: everything an assignment does besides notifying (store, link install/drop, post_setter, dependency rebinding) precedes the first watcher, so a watcher that "
                       "raises cannot leave the assignment half applied", floor=1)
@@ -330,6 +332,8 @@ def run(ctx):
     event_model(ctx, "R05.y", "C05")
     from checks import setter_model
     setter_model.report(ctx, "C05", "R05.s")
+    from checks import ctor_model
+    ctor_model.report(ctx, "C05", "R05.k")
     from checks import update_model
     update_model.report(ctx, "C05", "R05.m")
     from checks import trigger_model
